@@ -1013,7 +1013,8 @@ def unroll_defect(cirq, V, name, D, inner_first=False):
     op = V.sub(D)
     flat = op.mapped_circuit(deep=True)
     if inner_first:
-        flat = cirq.unroll_circuit_op(cirq.Circuit(op), deep=True, tags_to_check=None)
+        base = attempt(lambda: cirq.unroll_circuit_op(cirq.Circuit(op), deep=True, tags_to_check=None))
+        flat = base[1] if base[0] == 'ok' else flat
     r = attempt(lambda: getattr(cirq, name)(cirq.Circuit(op), deep=True, tags_to_check=None))
     if r[0] != 'ok':
         return 'raises-' + r[1]
